@@ -11,6 +11,7 @@ os.makedirs(root, exist_ok=True)
 if not os.path.isdir(wt):
     subprocess.run(["git", "-C", "/repo", "worktree", "add", "--detach", wt, "HEAD"], check=True, capture_output=True)
 else:
+    subprocess.run(["git", "-C", wt, "reset", "-q", "--hard"]); subprocess.run(["git", "-C", wt, "clean", "-fdq"])
     subprocess.run(["git", "-C", wt, "checkout", "-q", "--detach", subprocess.run(["git", "-C", "/repo", "rev-parse", "HEAD"], capture_output=True, text=True).stdout.strip()], check=True)
 subprocess.run(["rsync", "-a", "--delete", "--exclude", ".work/broker-*", "--exclude", "replays", "--exclude", ".git", "/verif/", vcopy + "/"], check=True)
 os.makedirs(vcopy + "/replays", exist_ok=True)
